@@ -449,7 +449,7 @@ def kernel_oracle(c, o):
             bad.append(("leftmost-piece-renumbered", f"leftmost piece of node {n} has id {pcs[0][2]}"))
         for (l1, r1, _), (l2, r2, _) in zip(pcs[:-1], pcs[1:]):
             if not r1 < l2:
-                bad.append(("pieces-overlap", f"two pieces of node {n} overlap or touch: tree at {l2} is not isomorphic"))
+                bad.append(("pieces-not-separated-by-gap", f"two pieces of node {n} overlap or touch at {l2}: only regions separated by a gap may become distinct nodes"))
     unused = set(range(N, order.size)) - set(touch)
     if unused:
         bad.append(("unused-new-node", f"new node(s) {sorted(unused)} carry no edge"))
@@ -566,13 +566,19 @@ def ts_oracle(ts_in, out, order, split):
                 bad.append(("piece-has-gap", f"non-sample output node {v} has a gap in its ancestry before {l}"))
                 break
             run = max(run, r)
-    # leftmost piece keeps the id
+    # leftmost piece keeps the id; pieces of one node are separated by genuine gaps
     first = {}
     for v, xs in ivs.items():
-        first.setdefault(int(orig[v]), []).append((min(l for l, _ in xs), v))
+        first.setdefault(int(orig[v]), []).append((min(l for l, _ in xs), max(r for _, r in xs), v))
     for n, pcs in first.items():
-        if min(pcs)[1] != n:
-            bad.append(("leftmost-piece-renumbered", f"leftmost piece of node {n} is {min(pcs)[1]}"))
+        pcs.sort()
+        if pcs[0][2] != n:
+            bad.append(("leftmost-piece-renumbered", f"leftmost piece of node {n} is {pcs[0][2]}"))
+        for (l1, r1, _), (l2, r2, _) in zip(pcs[:-1], pcs[1:]):
+            if not r1 < l2:
+                bad.append(("pieces-not-separated-by-gap", f"two pieces of node {n} overlap or touch at {l2}: only regions "
+                            "separated by a gap may become distinct nodes"))
+                break
     # mutations: site kept, node maps back, present piece; genotypes
     if out.num_sites != ts_in.num_sites or not np.array_equal(out.sites_position, ts_in.sites_position):
         bad.append(("sites-changed", "site table changed"))
